@@ -2434,6 +2434,20 @@ func (x *h3Run) rawBuild(idx int, st *H3RawStream) ([]byte, []h3Span) {
 	return b, spans
 }
 
+// h3DeclaredCL: the content-length value the script's header section declares
+func h3DeclaredCL(st *H3RawStream) (int, bool) {
+	total := h3RawDataLen(st)
+	switch st.CLDecl {
+	case 1:
+		return total, true
+	case 2:
+		return total + 7, true
+	case 3:
+		return max(total-1, 0), true
+	}
+	return 0, false
+}
+
 func h3RawCutoff(st *H3RawStream, total int) int {
 	if st.CutPPM <= 0 {
 		return total
@@ -2535,10 +2549,10 @@ func (x *h3Run) rawExpectReq(idx int, st *H3RawStream, spans []h3Span, cutoff in
 		if !seenH {
 			return with(h3RawExpect{label: "stream finished without a HEADERS frame", want: "any"})
 		}
-		if st.CLDecl == 2 {
+		// (against the DATA bytes that survive a cut at a frame boundary, not against the whole script)
+		if cl, ok := h3DeclaredCL(st); ok && cl > body {
 			return with(h3RawExpect{label: "content-length larger than the sum of the DATA frames", want: "stream", codes: []uint64{0x10e}, handler: 2})
-		}
-		if st.CLDecl == 3 && body > 0 {
+		} else if ok && cl < body {
 			return with(h3RawExpect{label: "content-length smaller than the sum of the DATA frames", want: "stream", codes: []uint64{0x10e}, handler: 2})
 		}
 		if st.RStop > 0 {
@@ -3483,10 +3497,9 @@ func (x *h3Run) rawExpectResp(idx int, st *H3RawStream, spans []h3Span, cutoff i
 	if !seenH {
 		return with(h3RawExpect{label: "response stream finished without a final HEADERS frame", want: "cerr"})
 	}
-	if st.CLDecl == 2 {
+	if cl, ok := h3DeclaredCL(st); ok && cl > body {
 		return with(h3RawExpect{label: "content-length larger than the sum of the DATA frames", want: "cerr"})
-	}
-	if st.CLDecl == 3 && body > 0 {
+	} else if ok && cl < body {
 		return with(h3RawExpect{label: "content-length smaller than the sum of the DATA frames", want: "cerr"})
 	}
 	return with(h3RawExpect{want: "ok", complete: true, trailers: seenT})
